@@ -36,6 +36,7 @@ LIBC_ASSUME = "libc byte movers (strlen/memmove/memcpy/strncpy/strncat) are cont
 NOFAIL = "malloc/realloc never fail (--no-malloc-may-fail): allocation failure is outside the property's quantifier"
 
 PROPS = {}
+NOT_APPLICABLE = {}
 _UNITS = []
 
 
@@ -49,103 +50,23 @@ def all_units():
     return list(_UNITS)
 
 
-# ---------------------------------------------------------------- C19 DString
-PROPS["C19"] = {
-    "level": "proof",
-    "explanation": "Every public DString operation of /repo/src/d_string.c is verified against its contract (DS_WF representation invariant + ideal-string length model, lib/ds_spec.h) by goto-instrument --dfcc contract enforcement: Unit A for all capacities up to 2^40 and all size_t positions/lengths (byte movers as contract stubs), Unit B for byte content at small capacities (bounded, reported separately).",
-    "slice": "d_string_new/free/append/append_c/append_c_array/append_printf/prepend/insert/insert_c/insert_c_array/insert_printf/erase/copy_substring/replace_text_in_range + file-local ensureStringBufferCanHold",
-    "not_reached": "formatting done by libc vsnprintf; sequences of operations follow by induction from the per-operation contracts (DS_WF is both pre- and postcondition), stated not machine-checked",
-    "trusted_base": ["cbmc/goto-cc/goto-instrument 6.11.0 (DFCC instrumentation, MiniSat2)", "lib/libc_stubs.c contract stubs for libc", "x86-64 LP64 machine model, size_t arithmetic modular as in C"],
-    "assumptions": [LIBC_ASSUME, NOFAIL, "DString capacity <= 2^40 and argument strings shorter than 2^40 in Unit A"],
-}
 
-_DS_SMALL = ["-DCAP_MAX=24", "-DSTR_MAX=8"]
-_ENSURE = "__CPROVER_file_local_d_string_c_ensureStringBufferCanHold"
-# inductive contract of the growth loop in ensureStringBufferCanHold (the only loop on these paths)
-_ENSURE_LOOP = {_ENSURE: [{
-    "loop_id": 0, "vars": ["newBufferSize", "newBufferSizeNeeded", "baseString"],
-    "invariants": "newBufferSize >= 1 && newBufferSize >= baseString->currentStringBufferSize && newBufferSize <= 2 * newBufferSizeNeeded + 104857600ul",
-    "assigns": "newBufferSize",
-    "decreases": "(newBufferSizeNeeded > newBufferSize ? newBufferSizeNeeded - newBufferSize : 0ul)"}]}
-_GROWS = {"d_string_append", "d_string_append_c", "d_string_append_c_array", "d_string_prepend", "d_string_insert", "d_string_insert_c", "d_string_insert_c_array"}
-_DS_NATIVE = {"repo": ["d_string.c"]}
-for fn, h in [("d_string_erase", "h_erase"), ("d_string_append", "h_append"), ("d_string_append_c", "h_append_c"),
-              ("d_string_append_c_array", "h_append_c_array"), ("d_string_prepend", "h_prepend"),
-              ("d_string_insert", "h_insert"), ("d_string_insert_c", "h_insert_c"),
-              ("d_string_insert_c_array", "h_insert_c_array"), ("d_string_copy_substring", "h_copy_substring")]:
-    U("ds_A_" + fn[9:], ["C19", "C01"], h, ["C19/ds_A.c"], ["d_string.c"], enforce=fn, loops=(_ENSURE_LOOP if fn in _GROWS else None),
-      small=_DS_SMALL, native=_DS_NATIVE, min_obligations=20,
-      callees={"ensureStringBufferCanHold": "body", "strlen/memmove/memcpy/strncpy/strncat": "contract stub", "realloc/malloc": "CBMC built-in"},
-      nobody_ok=["fprintf", "exit"],
-      assumptions=[LIBC_ASSUME, NOFAIL])
 
-# Unit B: byte content, bounded capacity (real CBMC libc models, loops unwound)
-for fn, h in [("d_string_erase", "h_erase"), ("d_string_append", "h_append"), ("d_string_append_c", "h_append_c"),
-              ("d_string_append_c_array", "h_append_c_array"), ("d_string_prepend", "h_prepend"),
-              ("d_string_insert", "h_insert"), ("d_string_insert_c", "h_insert_c"),
-              ("d_string_insert_c_array", "h_insert_c_array"), ("d_string_copy_substring", "h_copy_substring")]:
-    for capb, tier in (((3, "quick"), (5, "thorough")) if fn == "d_string_insert_c_array" else ((4, "quick"), (7, "thorough"))):
-        U("ds_B%d_%s" % (capb, fn[9:]), ["C19"], h, ["C19/ds_A.c"], ["d_string.c"], plain=True, functions=[fn], lib=("lib/libc_models.c",),
-          defines=["-DUNIT_B", "-DCAPB=%d" % capb, "-DSTRB=%d" % (capb // 2)], kind="bounded", tier=tier,
-          bounds={"capacity<=": capb, "argument string length<": capb // 2, "unwind": capb + 2},
-          cbmc_flags=["--unwind", str(capb + 2), "--unwinding-assertions"],
-          native=_DS_NATIVE, min_obligations=20, nobody_ok=["fprintf", "exit"], timeout=600, cost=30,
-          callees={"ensureStringBufferCanHold": "body", "libc": "byte-loop reference models lib/libc_models.c (unwound)"},
-          assumptions=[NOFAIL])
+def _load_defs():
+    """every contracts/<dir>/defs.py registers its units and PROPS entry; they are exec'd in this
+    module's namespace (U, PROPS, NOT_APPLICABLE, LIBC_ASSUME, NOFAIL are in scope)"""
+    here = os.path.dirname(os.path.abspath(__file__))
+    for d in sorted(os.listdir(here)):
+        p = os.path.join(here, d, "defs.py")
+        if os.path.exists(p):
+            exec(compile(open(p).read(), p, "exec"), globals())
 
-# ---------------------------------------------------------------- stack (shared)
-_ST_NATIVE = {"repo": ["stack.c"]}
-U("stack_push", ["C18", "C01"], "h_push", ["C18/stack.c"], ["stack.c"], enforce="stack_push", lib=(),
-  contracts={"stack_push": "stack_push__contract_frame"}, native=_ST_NATIVE, small=["-DSTACK_CAP_MAX=8"],
-  callees={"realloc": "CBMC built-in"}, assumptions=[NOFAIL, "stacks hold fewer than 2^29 entries (capacity is an int that doubles)"])
-for _f in ("pop", "peek", "peek_index"):
-    U("stack_" + _f, ["C18", "C01"], "h_" + _f, ["C18/stack.c"], ["stack.c"], enforce="stack_" + _f, lib=(),
-      native=_ST_NATIVE, small=["-DSTACK_CAP_MAX=8"], callees={"stack_peek": "body"})
 
-# ---------------------------------------------------------------- C18 pool
-U("pool_allocate_object", ["C18", "C01"], "h_alloc", ["C18/pool.c"], ["object_pool.c", "stack.c"], enforce="pool_allocate_object", lib=(),
-  functions=["pool_allocate_object", "pool_add_slab"], callees={"pool_add_slab": "body", "stack_push": "body", "malloc/realloc": "CBMC built-in"},
-  native={"repo": ["object_pool.c", "stack.c"]}, small=["-DSTACK_CAP_MAX=4"], assumptions=[NOFAIL], min_obligations=50)
-U("pool_drain_K3", ["C18", "C01"], "h_drain", ["C18/pool.c"], ["object_pool.c", "stack.c"], plain=True, lib=(), kind="bounded",
-  bounds={"slabs<=": 3, "unwind": 5}, cbmc_flags=["--unwind", "5", "--unwinding-assertions", "--memory-leak-check"],
-  functions=["pool_drain"], callees={"stack_pop": "body", "free": "CBMC built-in"}, native={"repo": ["object_pool.c", "stack.c"]})
-U("pool_new_free", ["C18", "C01"], "h_new_free", ["C18/pool.c"], ["object_pool.c", "stack.c"], plain=True, lib=(), kind="bounded",
-  bounds={"objects allocated<=": 3, "unwind": 5}, cbmc_flags=["--unwind", "5", "--unwinding-assertions", "--memory-leak-check"],
-  functions=["pool_new", "pool_free", "pool_add_slab", "stack_new", "stack_free"], callees={"all": "body"}, native={"repo": ["object_pool.c", "stack.c"]}, assumptions=[NOFAIL])
-_TP_NATIVE = {"repo": ["object_pool.c", "stack.c", "char.c"]}
-U("token_pool_init", ["C18"], "h_tp_init", ["C18/token_pool.c"], ["object_pool.c", "stack.c", "char.c"], enforce="token_pool_init", lib=(),
-  callees={"pool_new": "body", "pool_add_slab": "body", "stack_new/stack_push": "body"}, native=_TP_NATIVE, small=["-DSTACK_CAP_MAX=4"], assumptions=[NOFAIL, "token.c is verified as textually included in the spec TU (its statics are not linkable)"])
-U("token_pool_drain", ["C18"], "h_tp_drain", ["C18/token_pool.c"], ["object_pool.c", "stack.c", "char.c"], enforce="token_pool_drain", replace=["pool_drain"], lib=(),
-  callees={"pool_drain": "contract (proved bounded in pool_drain_K3)"}, native=_TP_NATIVE, small=["-DSTACK_CAP_MAX=4"])
-U("token_pool_free", ["C18"], "h_tp_free", ["C18/token_pool.c"], ["object_pool.c", "stack.c", "char.c"], enforce="token_pool_free", replace=["pool_free"], lib=(),
-  callees={"pool_free": "contract (havoc nothing; proved in pool_new_free)"}, nobody_ok=["fprintf"], native=_TP_NATIVE, small=["-DSTACK_CAP_MAX=4"])
-for _hl, _tier in ((4, "thorough"),):
-  U("token_pool_history%d" % _hl, ["C18"], "h_history", ["C18/token_pool.c"], ["object_pool.c", "stack.c", "char.c"], plain=True, lib=(), kind="bounded", tier=_tier,
-  defines=["-DHLEN=%d" % _hl], bounds={"history length<=": _hl, "unwind": _hl + 2}, cbmc_flags=["--unwind", str(_hl + 2), "--unwinding-assertions", "--memory-leak-check"], timeout=900, cost=60,
-  functions=["token_pool_init", "token_pool_drain", "token_pool_free", "token_new", "pool_allocate_object", "pool_drain", "pool_free", "pool_new"],
-  callees={"all": "body"}, nobody_ok=["fprintf"], native=_TP_NATIVE, assumptions=[NOFAIL])
-
-PROPS["C01"] = {
-    "level": "proof",
-    "explanation": "Memory-safety obligations (pointer dereference, bounds, pointer arithmetic, conversions, signed overflow, libc preconditions) that CBMC generates for every function under contract in this framework, plus units that exist only for safety.",
-    "slice": "see functions_under_contract",
-    "not_reached": "re2c scanners/lexers, lemon parsers, miniz, uthash, argtable; writer switch bodies beyond the per-token-type units",
-    "trusted_base": ["cbmc/goto-cc/goto-instrument 6.11.0", "lib/libc_stubs.c"],
-    "assumptions": [LIBC_ASSUME, NOFAIL],
-}
-
-PROPS["C18"] = {
-    "level": "proof",
-    "explanation": "Every pool and stack operation (object_pool.c, stack.c) and the token_pool_init/drain/free protocol functions (token.c) are verified against contracts over POOL_WF / ST_WF for all slab positions, all stack sizes and all counter values; bounded histories of the protocol are a separate bounded unit.",
-    "slice": "stack_push/pop/peek/peek_index, pool_add_slab, pool_allocate_object, pool_drain, pool_new, pool_free, token_pool_init/drain/free",
-    "not_reached": "conversions running between init and drain (the property's 'results unchanged') are covered only through the allocator contract: a token handed out stays valid until the outermost drain",
-    "trusted_base": ["cbmc/goto-cc/goto-instrument 6.11.0", "CBMC built-in malloc/realloc/free model"],
-    "assumptions": ["fewer than 2^29 slabs / stack entries", "fewer than 32767 nested token_pool_init calls (short counter)"],
-}
-
-NOT_APPLICABLE = {
+NOT_APPLICABLE.update({
     "C03": "the oracle is a reference Markdown renderer and the subject is the composition lexer->parser->pairing->writer; no function contract within CBMC's reach expresses it (DESIGN.md 4/C03)",
     "C17": "function contracts constrain one call in one thread; DFCC has no interleaving semantics (DESIGN.md 4/C17)",
-}
-for _p in ["C02", "C04", "C05", "C06", "C07", "C08", "C09", "C10", "C11", "C12", "C13", "C14", "C15", "C16", "C20"]:
-    NOT_APPLICABLE.setdefault(_p, "units for this property are not built yet in this revision of /verif (planned in DESIGN.md section 4); not claimed until they are")
+})
+_load_defs()
+for _p in ["C%02d" % i for i in range(1, 21)]:
+    if _p not in PROPS:
+        NOT_APPLICABLE.setdefault(_p, "units for this property are not built yet in this revision of /verif (planned in DESIGN.md section 4); not claimed until they are")
